@@ -541,7 +541,22 @@ func checkLazyMisc(r *core.Result, prog *core.Program, lp *packages.Package) {
 						if eobj == nil {
 							eobj = info.Uses[eid]
 						}
+						// … before the variable is assigned again (an error overwritten by the next call is lost)
+						limit := token.Pos(1 << 30)
 						ast.Inspect(f.Decl.Body, func(m ast.Node) bool {
+							if as2, ok := m.(*ast.AssignStmt); ok && as2.Pos() > as.End() && as2.Pos() < limit {
+								for _, l := range as2.Lhs {
+									if id, ok := l.(*ast.Ident); ok && (info.Uses[id] == eobj || info.Defs[id] == eobj) {
+										limit = as2.Pos()
+									}
+								}
+							}
+							return true
+						})
+						ast.Inspect(f.Decl.Body, func(m ast.Node) bool {
+							if m != nil && m.Pos() >= limit {
+								return false
+							}
 							switch x := m.(type) {
 							case *ast.ReturnStmt:
 								if x.Pos() > c.Pos() && len(x.Results) > 0 {
